@@ -11,7 +11,7 @@ import numpy as np
 import liesel.goose as gs
 from simkit import engine_world as W
 from simkit.core import EventLog, SutError, Violations, canon, sha, tree_digest
-from simkit.props.C07 import run_engine
+from simkit.props.C07 import failed, run_engine, sut_violation
 
 RUN_CAP_S = 240
 
@@ -144,7 +144,10 @@ def exec_probe(plan, V, log, counters):
     try:
         got, _ = run_engine(plan, log)
     except SutError as e:
-        V.add("initial-values", "multiple_chains=True", str(e))
+        if "multiple_chains=True" in str(e):
+            V.add("initial-values", "multiple_chains=True", str(e))
+        else:
+            sut_violation(V, e)
         return 0
     T = len(ref["trans"])
     C = plan["chains"]
